@@ -318,6 +318,7 @@ class Crate:
         self.no_std_pred = None       # formula under which #![no_std] applies
         self.derives = []             # (trait name, guard, feature literal, module path list, fn name)
         self.macros = {}              # name -> (pattern text, body items)
+        self.impls = []               # trait impls: {trait, type, own (cfgs written on the impl), guard (effective)}
         self.stats = {"items": 0, "modules": 0, "cfg_attrs": 0, "cfg_test_skipped": 0, "templates": 0,
                       "macro_expansions": 0, "use_decls": 0}
 
@@ -507,9 +508,9 @@ class Analyzer:
             if len(thing) == 1 and is_p(thing[0], ";"):
                 continue
             guard = f_all([mod.guard] + guards)
-            self.parse_item(mod, thing, guard, attrs, child_dir)
+            self.parse_item(mod, thing, guard, attrs, child_dir, own=f_all(guards))
 
-    def parse_item(self, mod, thing, guard, attrs, child_dir):
+    def parse_item(self, mod, thing, guard, attrs, child_dir, own=TRUE):
         c = self.c
         c.stats["items"] += 1
         k = skip_vis(thing, 0)
@@ -602,6 +603,47 @@ class Analyzer:
             self.scan(mod, thing[k + 2:], guard, file)
             return
         if kw == "impl":
+            # `impl [<..>] TRAIT for TYPE [where ..] {..}`: remember trait impls with their guards
+            hdr = [x for x in thing[k + 1:] if not (isinstance(x, Group) and x.delim == "{")]
+            fl = L.flat(hdr)
+            depth = 0
+            fpos = None
+            for q, x in enumerate(fl):
+                if is_p(x, "<"):
+                    depth += 1
+                elif is_p(x, ">") and not (q > 0 and is_p(fl[q - 1], "-")):
+                    depth -= 1
+                elif depth == 0 and is_id(x, "for"):
+                    fpos = q
+                    break
+            if fpos is not None:
+                st = 0
+                if fl and is_p(fl[0], "<"):            # skip the impl generics
+                    d2 = 0
+                    for q, x in enumerate(fl):
+                        if is_p(x, "<"):
+                            d2 += 1
+                        elif is_p(x, ">"):
+                            d2 -= 1
+                            if d2 == 0:
+                                st = q + 1
+                                break
+                trait_txt = "".join(x.text for x in fl[st:fpos])
+                ty = [x for x in fl[fpos + 1:]]
+                while ty and (is_p(ty[0], "&") or ty[0].kind == "lifetime" or is_id(ty[0], "mut")):
+                    ty = ty[1:]
+                # last identifier of the leading path of the self type
+                tname = None
+                q = 0
+                while q < len(ty) and is_id(ty[q]):
+                    tname = ty[q].text
+                    if q + 2 < len(ty) and is_p(ty[q + 1], ":") and is_p(ty[q + 2], ":"):
+                        q += 3
+                    else:
+                        break
+                if tname:
+                    c.impls.append({"trait": trait_txt, "type": tname, "own": own, "guard": guard, "file": file,
+                                    "line": line, "mod": mod.path})
             self.scan(mod, thing[k + 1:], guard, file)
             return
         raise TranslatorError("%s:%d: unknown item starting with %r" % (self.rel(file), line, kw))
@@ -1123,6 +1165,46 @@ def extract(repo=None):
                           "file": "impl/src/lib.rs", "line": line, "def_where": "; ".join(x[1] for x in ch)[:200],
                           "crate": "derive_more", "ctx": "trait-export"})
 
+    # trait impls of the facade's own types: wherever the type is compiled in (and the cfgs written on the impl itself
+    # hold), the impl must be compiled in - an impl sitting in a module that is gated more narrowly than the type
+    # silently drops the impl for some feature sets
+    def type_defs(name):
+        out = []
+        for mp, m in facade.modules.items():
+            for d in m.defs.get(name, []):
+                if d.kind in ("struct", "enum", "union"):
+                    out.append(d)
+        return out
+    for im in facade.impls:
+        tds = type_defs(im["type"])
+        if not tds:
+            continue
+        tg = f_any([d.guard for d in tds])
+        pairs.append({"use": f_all([tg, im["own"]]), "def": im["guard"],
+                      "what": "impl %s for %s" % (im["trait"], im["type"]), "file": os.path.relpath(im["file"], repo),
+                      "line": im["line"], "def_where": "%s:%d" % (os.path.relpath(im["file"], repo), im["line"]),
+                      "crate": "derive_more", "ctx": "impl", "type": im["type"], "trait": im["trait"]})
+
+    # the public helper types of the facade (root and __private): name, definition guard, number of type parameters
+    surface = []
+    for place in ([], ["__private"]):
+        m = facade.modules.get(tuple(place))
+        for name, ds in sorted(m.defs.items()):
+            if not any(d.vis == "pub" for d in ds):
+                continue
+            tds = type_defs(name)
+            if not tds:
+                continue
+            src_line = open(tds[0].file).read().split("\n")[tds[0].line - 1:tds[0].line + 3]
+            mm = re.search(r"(?:struct|enum|union)\s+" + re.escape(name) + r"\s*(<[^>{(;]*>)?", " ".join(src_line))
+            params = []
+            if mm and mm.group(1):
+                params = [x.strip() for x in mm.group(1)[1:-1].split(",") if x.strip()]
+            surface.append({"path": "::".join(["derive_more"] + place + [name]), "name": name,
+                            "guard": f_any([x[0] for x in r_fac.chain(place, name, "t")]),
+                            "type_params": len([x for x in params if not x.startswith("'") and not x.startswith("const ")]),
+                            "lifetimes": len([x for x in params if x.startswith("'")])})
+
     # derive exports of the facade: macro-namespace definitions of each derive name at the three public places
     exports = []
     for place in ([], ["derive"], ["with_trait"]):
@@ -1195,7 +1277,8 @@ def extract(repo=None):
         raise TranslatorError("the extractor saw %d #[cfg(..)] attributes, a regex-level count finds %d" % (seen_cfg, grep_cfg))
     return {"variables": variables, "ok_pairs": ok_pairs, "exceptions": exceptions, "exports": exports,
             "helpers": helpers, "derives": derives, "facade_features": fac_feats, "impl_features": imp_feats,
-            "dep_table": dep_table, "trait_exports": trait_exports, "notes": notes, "stats": stats, "derive_features": derive_feats,
+            "dep_table": dep_table, "trait_exports": trait_exports, "surface": surface,
+            "impls": [{"trait": i["trait"], "type": i["type"], "guard": i["guard"]} for i in facade.impls], "notes": notes, "stats": stats, "derive_features": derive_feats,
             "facade_tests": [(v.get("name"), v.get("path"), v.get("required-features", []))
                              for k, v in fac_m.items() if k.startswith("test#")],
             "no_std_pred": facade.no_std_pred}
